@@ -145,6 +145,12 @@ func norm(v any) any {
 			out[i] = norm(e)
 		}
 		return out
+	case *rolist:
+		out := make([]any, len(t.s))
+		for i, e := range t.s {
+			out[i] = norm(e)
+		}
+		return out
 	}
 	rv := reflect.ValueOf(v)
 	switch rv.Kind() {
@@ -300,6 +306,10 @@ func (c *xcase) replayMap(extra map[string]any) map[string]any {
 func (c *xcase) finding(kind, class, what, knownID string, extra map[string]any) {
 	if *verbose {
 		fmt.Printf("%s %s: %s | %s | %v\n", kind, class, c.String(), what, extra)
+	}
+	if kind == "violation" {
+		// one class per mutator, so that the runner shows an input for each (it reports one finding per class)
+		class += ":" + strings.Fields(c.String())[0]
 	}
 	f := lib.Finding{Kind: kind, Class: class, What: what, Replay: c.replayMap(extra)}
 	if knownID != "" {
@@ -921,12 +931,28 @@ func (l *ilist) RemoveValueAtIndex(i int) {
 	}
 }
 
+// rolist is a list behind the plain jp.Indexed interface (elements can be read and set, not removed)
+type rolist struct{ s []any }
+
+func (l *rolist) ValueAtIndex(i int) any {
+	if i < 0 || len(l.s) <= i {
+		return nil
+	}
+	return l.s[i]
+}
+func (l *rolist) SetValueAtIndex(i int, v any) {
+	if 0 <= i && i < len(l.s) {
+		l.s[i] = v
+	}
+}
+func (l *rolist) Size() int { return len(l.s) }
+
 // the document with its maps behind Keyed and its lists behind RemovableIndexed — all of them ("all"), only the maps ("maps"),
 // only the lists ("lists"), or all but the root ("inner"): a wrapped member of a plain container and a plain member of a
 // wrapped one go through other arms than a uniformly wrapped document
 func collDoc(v any, mode string, root bool) any {
 	wrapMap := mode == "all" || mode == "maps" || (mode == "inner" && !root)
-	wrapList := mode == "all" || mode == "lists" || (mode == "inner" && !root)
+	wrapList := mode == "all" || mode == "lists" || mode == "indexed" || (mode == "inner" && !root)
 	switch t := v.(type) {
 	case map[string]any:
 		m := map[string]any{}
@@ -941,6 +967,9 @@ func collDoc(v any, mode string, root bool) any {
 		s := make([]any, len(t))
 		for i, e := range t {
 			s[i] = collDoc(e, mode, false)
+		}
+		if mode == "indexed" {
+			return &rolist{s}
 		}
 		if wrapList {
 			return &ilist{s}
@@ -991,6 +1020,13 @@ func (c *xcase) runColl() {
 			return
 		}
 	}
+	// Remove / RemoveOne from a list behind the plain jp.Indexed interface (no RemoveValueAtIndex): nothing can be removed, and
+	// nothing is reported. Known only if the document is exactly as before.
+	if c.Op == "rem" && mode == "indexed" && impl.kind == "ok" && impl.after == before && lib.HasKnown(knownList, indexedRemoveID) {
+		rep.Count("known."+indexedRemoveID, 1)
+		c.finding("known", "coll-indexed-untouched", "Remove leaves a list behind the plain jp.Indexed interface untouched and reports nothing", indexedRemoveID, extra)
+		return
+	}
 	// Modify / ModifyOne with a filter as last fragment on a Keyed collection: modify.go has no arm for it, nothing happens.
 	// Known only if the document is exactly as before.
 	if c.Op == "mod" && strings.HasSuffix(c.Path, ")]") && impl.kind == "ok" && impl.after == before && lib.HasKnown(knownList, keyedFilterID) {
@@ -1003,6 +1039,7 @@ func (c *xcase) runColl() {
 
 const keyedRemoveOneID = "C13-removeone-keyed-all"
 const keyedFilterID = "C13-modify-filter-keyed-untouched"
+const indexedRemoveID = "C13-remove-indexed-silent"
 
 // the path ends in a name (`.x`), not in a bracket
 func lastIsName(p string) bool {
@@ -1035,7 +1072,7 @@ func produceColl(r *lib.Rng) {
 					if (m.op == "set" || m.op == "del") && endsInSliceOrFilter(p) {
 						continue // Set/Del refuse a path that ends in a slice or a filter
 					}
-					for _, mode := range []string{"all", "maps", "lists", "inner"} {
+					for _, mode := range []string{"all", "maps", "lists", "inner", "indexed"} {
 						c := xcase{Stream: "coll", Op: m.op, One: one, Path: p, Doc: d.doc, Shape: mode, Arg: m.arg}
 						c.runColl()
 					}
